@@ -411,8 +411,22 @@ func workerServer1P(c *fw.Ctx) (baseURL, servedDir string, ok bool) {
 	c.Env.State["server1p_dir"] = dir
 	c.Env.State["server1p_cmd"] = cmd
 	c.Env.State["server1p_out"] = out
+	// delay injected at an existing suspension point: every write(2) of this server (socket writes) takes 20 ms
+	// longer, as with a slow peer, so other handlers run between a handler's last statement and its response leaving
+	if sp, err := exec.LookPath("strace"); err == nil {
+		tr := exec.Command(sp, "-f", "-p", strconv.Itoa(cmd.Process.Pid), "-o", "/dev/null", "-e", "trace=write", "-e", "inject=write:delay_enter=20000")
+		tr.SysProcAttr = &syscall.SysProcAttr{Pdeathsig: syscall.SIGKILL}
+		if tr.Start() == nil {
+			go tr.Wait()
+			time.Sleep(300 * time.Millisecond)
+			c.Env.State["server1p_delay"] = true
+		}
+	}
 	return u, dir, true
 }
+
+// server1PDelayed tells whether the single-threaded server runs with delayed socket writes.
+func server1PDelayed(c *fw.Ctx) bool { _, ok := c.Env.State["server1p_delay"]; return ok }
 
 // withServerNoise runs f while several clients keep asking the server at base for the given served files (view and
 // view-raw of every archive): whatever a request handler shares with other requests is then shared with these.
